@@ -1037,6 +1037,8 @@ def gen_api_ops(rng, npool, nfar, nnear, maxops):
                 op = ['SET_F', rng.randrange(npool)]
             elif r < 0.2:
                 op = ['OBS_REPORT', []]
+            elif r < 0.23:
+                op = ['REPORT_EARLY']
             elif r < 0.28:
                 op = ['COMPUTE', 'steps']
             elif r < 0.33 and (nfar or nnear):
@@ -1067,13 +1069,17 @@ def gen_api_ops(rng, npool, nfar, nnear, maxops):
                         opts.append('far-field-absolute')
                 if st.near is not None and rng.random() < 0.8:
                     opts.append('near-field')
+                if st.far is not None and st.near is not None and rng.random() < 0.4:
+                    opts = ['far-field', 'far-field-absolute', 'near-field']
                 op = ['OBS_REPORT', opts]
             elif r < 0.95:
                 op = ['OBS_CMDLINE']
             elif r < 0.975:
                 op = ['OBS_BASIC', rng.choice(['9', '9', '12', '13'])]
-            elif r < 0.988:
+            elif r < 0.984:
                 op = ['OBS_MISC', rng.randrange(1000)]
+            elif r < 0.99 and (st.far is None or st.near is None):
+                op = ['REPORT_EARLY']
             else:
                 # a malformed field request that raises inside the program
                 op = [rng.choice(['NEAR_BAD', 'FAR_BAD']), rng.randrange(7)]
